@@ -312,3 +312,45 @@ def diff_program(before, after):
                     else:
                         out.append(("instruction.params:value", "#%d %s.%s: %s -> %s" % (i, b["type"], k, str(bk[k])[:60], str(ak[k])[:60])))
     return out
+
+
+# ------------------------------------------------------------------ connector seam
+
+CONNECTOR_FUNCTIONS = (
+    "permanent", "permanent_laplace", "hafnian", "loop_hafnian", "loop_hafnian_batch", "pfaffian",
+    "calculate_interferometer_on_fock_space", "calculate_interferometer_on_fermionic_fock_space",
+    "apply_fermionic_passive_linear_to_state_vector", "density_matrix_from_gaussian",
+    "svd", "polar", "schur", "logm", "real_logm", "expm", "powm", "sqrtm", "block", "block_diag",
+    "embed_in_identity", "assign", "scatter", "transpose",
+)
+
+
+def faulty_connector(inject=None, exc=None):
+    """A NumpyConnector (the injectable `connector=` argument) that counts the calls of its calculation
+    functions and raises `exc` on the entry of call number `inject = (name, k)`.  Unlike the settrace
+    monitor this also reaches functions implemented natively (permanent, pfaffian, numba kernels)."""
+    import piquasso as pq
+
+    calls = {}
+    state = {"fired": False}
+
+    def make(name):
+        def method(self, *a, **kw):
+            k = calls.get(name, 0)
+            calls[name] = k + 1
+            if inject is not None and not state["fired"] and inject[0] == name and inject[1] == k:
+                state["fired"] = True
+                raise exc("injected at connector.%s call %d" % (name, k))
+            return getattr(super(cls, self), name)(*a, **kw)
+
+        method.__name__ = name
+        return method
+
+    cls = type("NumpyConnector", (pq.NumpyConnector,), {})
+    for name in CONNECTOR_FUNCTIONS:
+        if hasattr(pq.NumpyConnector, name):
+            setattr(cls, name, make(name))
+    conn = cls()
+    conn._dst_calls = calls
+    conn._dst_state = state
+    return conn
